@@ -7,6 +7,8 @@ Shared driver for M-Sys (`qm_c04`, `qm_c03`). Requests (one S-expression line ea
        script = (<act> …); act = (send r tag seq) | (spawn fn (r …)) | (select (<src> …)) | fail
        src = (proc r) | (recv any) | (recv tag k) | (recv range lo hi) | (timeout ms)
   (cfg exit-reports on|off)          variant of the runtime (default: the code at HEAD)
+  (cfg select-waits on|off)          …
+  (cfg release-dead on|off)          …
   (mode current|replace-answers|mark-active-on-empty|wake-only-on-empty-answer)   which `Rules` the step uses (default current) → ok
   (env (<vis> …))                     `Choice.env`   (a `*` entry = everything)            → snapshot
   (worker i vis fuel (ordQ…) (ordE…)) `Choice.worker` (`*` for vis = everything)           → snapshot
@@ -124,7 +126,7 @@ def showPairs (xs : List (Pid × Msg)) : String :=
   joinWith " " (xs.map (fun rm => s!"{rm.2.src}>{rm.1}:{showMsg rm.2}"))
 
 def ghost (s : Sys) : String :=
-  s!"sent=[{showPairs s.sent}] appended=[{showPairs s.appended}] dropped=[{showPairs s.dropped}] " ++
+  s!"sent=[{showPairs s.sent}] appended=[{showPairs s.appended}] dropped=[{showPairs s.dropped}] dead=[{showPairs s.deadDropped}] " ++
   s!"spawned=[{joinWith " " (s.spawned.map (fun cp => s!"{cp.1}>{cp.2}"))}] " ++
   s!"notified=[{joinWith " " (s.spawnNotified.map (fun x => s!"{x.1}>{x.2.1}:{if x.2.2 then 1 else 0}"))}] " ++
   s!"reported=[{joinWith " " (s.reported.map (fun cp => s!"{cp.1}<{cp.2}"))}] " ++
@@ -183,6 +185,8 @@ def step (st : St) (req : List Sx) : St × String :=
   | [.list [.atom "cfg", .atom "exit-reports", .atom "off"]] => ({ st with cfg := { st.cfg with exitReports := false } }, "ok")
   | [.list [.atom "cfg", .atom "select-waits", .atom "on"]] => ({ st with cfg := { st.cfg with selectWaits := true } }, "ok")
   | [.list [.atom "cfg", .atom "select-waits", .atom "off"]] => ({ st with cfg := { st.cfg with selectWaits := false } }, "ok")
+  | [.list [.atom "cfg", .atom "release-dead", .atom "on"]] => ({ st with cfg := { st.cfg with releaseDead := true } }, "ok")
+  | [.list [.atom "cfg", .atom "release-dead", .atom "off"]] => ({ st with cfg := { st.cfg with releaseDead := false } }, "ok")
   | [.list [.atom "mode", .atom "current"]] => ({ st with rules := Rules.current }, "ok")
   | [.list [.atom "mode", .atom "replace-answers"]] => ({ st with rules := Rules.replaceAnswers }, "ok")
   | [.list [.atom "mode", .atom "mark-active-on-empty"]] => ({ st with rules := Rules.markActiveOnEmpty }, "ok")
